@@ -145,10 +145,30 @@ Proof.
   exists tier. split; [exact Hd|exact Hall].
 Qed.
 
+(* a handler fault on (preemptor, node) - Statement.Pipeline fails - never yields an assignment: the
+   attempt leaves no operation behind and nothing for the evictor, for EVERY fault script *)
+Theorem faulted_attempt_contributes_nothing k s p pq a s' ok v lg :
+  ops s nsid = [] -> heap_ok s -> (t_id p, at_node a) ∈ e_faults E ->
+  run_attempt eps E k s p pq a = (s', ok, v, lg) ->
+  ok = false /\ evicts s' = evicts s /\ ops s' jsid = ops s jsid /\ ops s' nsid = [].
+Proof.
+  intros Hn Hok Hf H. pose proof (faulted_pipeline_never_assigned eps E _ _ _ _ _ _ _ _ _ Hok Hf H) as ->.
+  split; [reflexivity|]. eapply failed_attempt_contributes_nothing; eauto.
+Qed.
+
+(* a task whose eviction the cache refuses (Commit un-evicts it) never appears in the evictor log *)
+Theorem refused_eviction_not_logged cs s s' lg x :
+  clear s -> heap_ok s -> run eps E s cs = (s', lg) ->
+  x ∈ refuse_evict s -> x ∈ evicts s' -> x ∈ evicts s.
+Proof.
+  intros Hcl Hok Hr Hx Hin. destruct (run_not_refused eps E cs s s' lg x Hcl Hok Hr Hin); [auto|contradiction].
+Qed.
+
 End WithEps.
 
 (* ---- the hypotheses hold for every session the harness builds ---- *)
-Lemma build_clear_heap_ok eps ns js ts : clear (build eps ns js ts) /\ heap_ok (build eps ns js ts).
+Lemma build_clear_heap_ok eps ns js ts he rb re jr :
+  clear (upd_faults (build eps ns js ts) he rb re jr) /\ heap_ok (upd_faults (build eps ns js ts) he rb re jr).
 Proof.
   split; [split; reflexivity|]. unfold heap_ok, build; simpl. intros i p H.
   apply elem_of_list_to_map_2 in H. apply elem_of_list_fmap in H as (t & [= -> ->] & _). reflexivity.
